@@ -57,6 +57,25 @@ def _code(minor, src, i, outputs=None, ec=None, **kw):
     c.update(kw); return c
 
 
+def one_sided_id_triples():
+    """similar concurrent inserts where exactly one side has cell ids: base 4.<m> without ids, one side still pre-4.5 adds a
+    cell, the other side was re-saved as 4.5 (every cell gets an id) and adds a near-identical cell; both orders, code and
+    markdown, base minor 4 and 2 (repair f2e9526: the combined cell takes the one existing id)"""
+    out = []
+    for bm in (4, 2):
+        for kind in ('code', 'markdown'):
+            mk = _code if kind == 'code' else _md
+            base = _nb(bm, [_md(bm, 'base cell\n', 0)])
+            old = copy.deepcopy(base); old['cells'].insert(0, mk(bm, 'def f(x):\n    y = x\n    z = y\n    return x+1\n', 1))
+            new = copy.deepcopy(base); new['nbformat_minor'] = 5
+            new['cells'][0]['id'] = 'basecell'
+            c = mk(5, 'def f(x):\n    y = x\n    z = y\n    return x+2\n', 1); c['id'] = 'inserted-1'
+            new['cells'].insert(0, c)
+            out.append(('hand:insert_insert_similar_one_sided_id:remote_has_ids:%s@4.%d' % (kind, bm), base, old, new))
+            out.append(('hand:insert_insert_similar_one_sided_id:local_has_ids:%s@4.%d' % (kind, bm), base, copy.deepcopy(new), copy.deepcopy(old)))
+    return out
+
+
 def handmade(minor):
     """[(name, base, local, remote)] exercising each conflict renderer at the given minor"""
     out = []
@@ -249,6 +268,7 @@ def gen_triples(r, n, repo, minors_mix=0.15):
     """-> [(name, base, local, remote)]: hand-made (every minor), fixtures, generated"""
     out = corpus_triples('C04')
     for k in range(6): out += [('hand:%s@4.%d' % (nm, k), b, l, rm) for nm, b, l, rm in handmade(k)]
+    out += one_sided_id_triples()
     out += fixture_triples(repo)
     for _ in range(max(6, n // 12)): out.append(upgrade_triple(r))
     for _ in range(max(10, n // 8)): out.append(multi_insert_triple(r))
@@ -260,4 +280,4 @@ def gen_triples(r, n, repo, minors_mix=0.15):
         if minor < 5 and r.random() < minors_mix:
             b, l, rm = vary_minors(r, b, l, rm); name += '+minors%d%d%d' % (b['nbformat_minor'], l['nbformat_minor'], rm['nbformat_minor'])
         out.append((name, b, l, rm)); i += 1
-    return out[:max(n, 110)]
+    return out[:max(n, 120)]
